@@ -42,13 +42,9 @@ Proof. intro H. destruct (hdr_is_control opcode); [exact H|reflexivity]. Qed.
 
 (* size tests of the reader, from `fits` *)
 Lemma size_ok_data opcode wlen :
-  (max_msg_size c =? 0) || (wlen <? max_msg_size c) = true ->
+  size_check_applies (max_msg_size c) opcode && size_reject (Z.of_N wlen) (Z.of_N (max_msg_size c)) 0 = false ->
   size_check_applies (max_msg_size c) opcode && size_reject (Z.of_N wlen) (Z.of_N (max_msg_size c)) (Z.of_N (lenN (@nil N))) = false.
-Proof.
-  intro H. unfold size_check_applies, size_reject. change (lenN (@nil N)) with 0.
-  destruct (max_msg_size c =? 0) eqn:E0; [reflexivity|]. cbn [negb andb orb] in *.
-  destruct (ws_mem opcode [1; 2; 0]); [|reflexivity]. cbn [andb]. lia.
-Qed.
+Proof. intro H. exact H. Qed.
 
 Lemma size_ok_ctl opcode wlen : hdr_is_control opcode = true -> opcode_ok opcode = true ->
   size_check_applies (max_msg_size c) opcode && size_reject (Z.of_N wlen) (Z.of_N (max_msg_size c)) (Z.of_N (lenN (@nil N))) = false.
@@ -96,11 +92,11 @@ Proof.
       unfold is_data_op in DOP. apply orb_true_iff in DOP. rewrite !N.eqb_eq in DOP.
       assert (OK : opcode_ok opcode = true) by (destruct DOP as [-> | ->]; reflexivity).
       assert (NC : hdr_is_control opcode = false) by (destruct DOP as [-> | ->]; reflexivity).
-      assert (FITS : (max_msg_size c =? 0) || (lenN body <? max_msg_size c) = true).
+      assert (FITS : size_check_applies (max_msg_size c) opcode
+                     && size_reject (Z.of_N (lenN body)) (Z.of_N (max_msg_size c)) 0 = false).
       { unfold is_data_op in FIT.
         assert (X : (opcode =? OP_TEXT) || (opcode =? OP_BINARY) = true) by (destruct DOP as [-> | ->]; reflexivity).
-        rewrite X in FIT. apply orb_true_iff in FIT as [F|F]; [rewrite F; reflexivity|].
-        apply andb_true_iff in F as [F _]. rewrite F. apply orb_true_r. }
+        rewrite X in FIT. apply andb_true_iff in FIT as [F _]. apply negb_true_iff in F. exact F. }
       pose proof (iter_frame Cx decomp c s (w_mask wc) false opcode body rbits w0 rest P FR OK
                     ltac:(discriminate) ltac:(congruence) MZ FF
                     ltac:(rewrite PA; apply size_ok_data; exact FITS) W) as IT.
@@ -354,14 +350,13 @@ Proof.
   rewrite removesuffix_app in DO.
   destruct (write_frame (w_mask wc) RSV1_COMPRESSED opcode z0 rbits) as [w0|] eqn:W; [|discriminate].
   injection DO as <- <- <- <-.
-  assert (FITS : ((max_msg_size c =? 0) || (lenN z0 <? max_msg_size c) = true)
-                 /\ (max_msg_size c = 0 \/ lenN body <= max_msg_size c)).
+  assert (FITS : (size_check_applies (max_msg_size c) opcode
+                  && size_reject (Z.of_N (lenN z0)) (Z.of_N (max_msg_size c)) 0 = false)
+                 /\ inflated_too_big (max_msg_size c) (lenN body) = false).
   { unfold is_data_op in FIT.
     assert (X : (opcode =? OP_TEXT) || (opcode =? OP_BINARY) = true) by (destruct DOP as [-> | ->]; reflexivity).
-    rewrite X in FIT. apply orb_true_iff in FIT as [F|F].
-    - rewrite F. split; [reflexivity|left; lia].
-    - apply andb_true_iff in F as [F1 F2]. rewrite F1, orb_true_r. split; [reflexivity|right; lia]. }
-  destruct FITS as [FW FM].
+    rewrite X in FIT. apply andb_true_iff in FIT as [F1 F2]. apply negb_true_iff in F1, F2. split; assumption. }
+  destruct FITS as [FW ITB].
   (* the compressor the writer used is paired with the reader's decompressor *)
   destruct CI as (CI1 & CI2 & CI3).
   assert (PAIR : Rsync cc (m_cx (s_m s))).
@@ -371,7 +366,8 @@ Proof.
       + apply fresh_paired.
     - injection GC as <- <-. apply fresh_paired. }
   destruct (step_paired _ _ _ _ _ _ (inflate_cap (max_msg_size c)) PAIR CO) as (d' & DEC & PAIR').
-  { unfold inflate_cap. destruct (max_msg_size c =? 0) eqn:E0; [left; lia|right]. destruct FM; lia. }
+  { unfold inflate_cap. unfold inflated_too_big in ITB. destruct (max_msg_size c =? 0) eqn:E0; [left; lia|right].
+    cbn [negb andb] in ITB. lia. }
   pose proof (iter_frame Cx decomp c s (w_mask wc) true opcode z0 rbits w0 rest P FR OK
                 ltac:(intros _; split; assumption) ltac:(congruence) MZ FF
                 ltac:(rewrite PA; apply size_ok_data; exact FW) W) as IT.
@@ -379,8 +375,6 @@ Proof.
   rewrite (handle_data Cx decomp c (s_m s) opcode z0 1 DOP PA MO) in IT.
   unfold complete in IT. change (negb (1 =? 0)) with true in IT. cbv iota in IT.
   change WS_DEFLATE_TRAILING with DEFLATE_TRAILING in IT. rewrite DEC in IT.
-  assert (ITB : inflated_too_big (max_msg_size c) (lenN body) = false).
-  { unfold inflated_too_big. destruct (max_msg_size c =? 0) eqn:E0; [reflexivity|]. cbn [negb andb]. destruct FM; lia. }
   rewrite ITB in IT. rewrite deliver_ok in IT; [|exact DOP|exact UT].
   destruct IT as (s' & IT & P' & T' & FR' & M' & FF' & CP').
   exists (if opcode =? OP_TEXT then MText body else MBinary body), s'. split; [|split; [exact IT|split]].
